@@ -87,6 +87,8 @@ def run(prog, tier):
     obs.extend(_reflect_mass(prog, ci))
 
     obs.extend(dtype_hazard_obligations(prog, "float-arithmetic", ['inference/mcmc/hmc/__init__.py', 'inference/mcmc/hmc/mass.py']))
+    from .common import call_order_obligations
+    obs.extend(call_order_obligations(prog, "arguments-in-order", ['inference/mcmc/hmc/__init__.py', 'inference/mcmc/hmc/mass.py']))
 
     meta = {
         "explanation": "Each leapfrog is abstractly interpreted (loops unrolled) into a word over Kick(c)/Drift(c)/Reflect with "
